@@ -707,7 +707,7 @@ impl<'a> Searcher<'a> {
                                                     Some(parent) => parent.join(resolved),
                                                     None => resolved,
                                                 };
-                                                ok = true;
+                                                ok = !self.current_follow_symlinks || path.is_dir();
                                             }
                                         } else if file_type.is_dir() {
                                             ok = true;
